@@ -241,6 +241,28 @@ def _task(task):
                         ks = list(SCALAR_K)
                         if cls != "Scalar":
                             ks += array_k(n)
+                        # ONE operand object through all ten expressions, forwards and backwards (an answer must
+                        # not depend on what the same object was used for before)
+                        for kname, kf, kpy, ktol in [k for k in ks if k[0] in ("float 2.5", "np.float64 2.5", "int 2") or k[0].startswith("ndarray float len")]:
+                            if ckind and ":" in ckind:
+                                continue
+                            xs = build(cls, ckind, q, VALUES[0], n)
+                            xv = [VALUES[0][0]] if cls == "Scalar" else list(VALUES[0][:n])
+                            done = []
+                            for expr in EXPRS + EXPRS[::-1]:
+                                part.count("evaluations")
+                                done.append(expr)
+                                sig = "C09:%s[%s,len %d]:%s:one operand object through %s:k=%s" % (cls, ckind, n, qname, " ; ".join(done), kname)
+                                try:
+                                    r = _apply(expr, xs, kf())
+                                except ZeroDivisionError:
+                                    continue
+                                except Exception as e:
+                                    part.violation(sig + ":raised", {"error": repr(e)})
+                                    break
+                                out = judge(part, model, db, sig, None, expr, xs, q, xv, kpy, ktol, r)
+                                if out[0] != "ok":
+                                    break
                         for vi, vals in enumerate(VALUES):
                             for kname, kf, kpy, ktol in ks:
                                 for expr in EXPRS:
